@@ -18,6 +18,18 @@ CHECKS = {
         design_ref="DESIGN.md 7/C01",
         note="E1-E6 (fake MySQL semantics), TLC, synctest; weak reading: members count by ground truth dead or alive",
         technique="TLA+ model of the switchover (TLC exhaustive) + trace/row validation of real runs on fakes by TLC"),
+    "C04": dict(
+        category="model_checking",
+        text="ActiveNodes.tla models updateActiveNodes at call granularity (both orders, manager death at every label, any "
+             "single call failing); TLC proves that a completed failure-free iteration establishes (a)&(b) and pins the "
+             "complete set of windows in which they break (DestroysOnlyKnown). The real update runs for 2-5 node "
+             "situation classes with the manager killed / a call failing at census call boundaries; every activation "
+             "(entry and exit/cut ground truth) and every list write is judged by TLC (IterRows.tla) against the C04 "
+             "operators of ClusterProps; each broken witness is attributed to its history and matched against the seven "
+             "listed findings - anything else is a violation.",
+        design_ref="DESIGN.md 7/C04",
+        note="E3 (flag judged as variable); failover switched off in these scenarios; 7 genuine findings listed",
+        technique="TLA+ model of the update with crash/failure at every label (TLC) + TLC validation of real activations"),
     "C06": dict(
         category="model_checking",
         text="Request lifecycle: Switchover.tla (Start/Fail/Finish/Reject, attempt counter, limit) is model-checked with "
